@@ -1,7 +1,7 @@
 ------------------------------- MODULE Trace_Sig -------------------------------
 (* Binding O for C01 / C02 / C05: events about real signature packets, judged by SigHash.tla.     *)
 (* A batch has a table of octet strings (J.blobs) and events referring to them by index (from 1). *)
-EXTENDS SigHash, TLC, Json, IOUtils
+EXTENDS Cleartext, SigHash, TLC, Json, IOUtils
 J == JsonDeserialize(IOEnv.TRACE_FILE)
 Events == J.events
 Blob(k) == J.blobs[k]
@@ -11,7 +11,9 @@ SigBody(k) == LET p == PacketAt(Blob(k), 1) IN IF p.ok /\ p.tag = 2 /\ p.next = 
 UidPkts(blob) == SelectSeq(Split(blob).pkts, LAMBDA k : k.tag \in {13, 17})
 \* subject descriptor -> the component record SubjectOctets reads
 Subj(d) ==
-  [doc |-> IF "doc" \in DOMAIN d THEN Blob(d.doc) ELSE <<>>,
+  \* a document that is the text of a cleartext signed message is covered in its RFC 4880 7.1 form (trailing SP / TAB of every line
+  \* removed, CR LF line endings); any other document as it is
+  [doc |-> IF "doc" \in DOMAIN d THEN (IF "cleartext" \in DOMAIN d /\ d.cleartext THEN CanonCleartext(Blob(d.doc)) ELSE Blob(d.doc)) ELSE <<>>,
    primary |-> IF "p" \in DOMAIN d THEN KeyBodies(Blob(d.kb))[d.p] ELSE <<>>,
    sub |-> IF "s" \in DOMAIN d THEN KeyBodies(Blob(d.skb))[d.s] ELSE <<>>,
    uid |-> IF "u" \in DOMAIN d THEN UidPkts(Blob(d.ukb))[d.u].body ELSE <<>>,
